@@ -571,6 +571,13 @@ pub fn check_strict(
   // composite-over-cache classification is per object (for C10 also when the
   // wrapped tree itself, object 0, contains such a composite)
   let judged_obj = std::cell::Cell::new(0usize);
+  let w_can_be_inconsistent = scn.objects[0].contains(&|n| match n {
+    TreeSpec::Replace { calls, .. } => !calls.is_empty(),
+    TreeSpec::Concat { children, .. } => children.len() >= 2,
+    TreeSpec::SourceMap { inner, .. } => inner.as_ref().is_some_and(|i| i.inner_map.is_some()),
+    TreeSpec::User { .. } => true,
+    _ => false,
+  });
   // (Judging simple parents' *positional* answers against their uncached
   // twins was tried: 12 of 400 k runs on the unchanged tree differ, all through
   // ConcatSource's closing-segment logic when the cached child stops
@@ -605,7 +612,12 @@ pub fn check_strict(
       return;
     }
     let kind = match (mode, &inherited, attribution_only) {
-      (StrictMode::C10, Some(_), true) => {
+      // The recorded finding covers wrapped trees that contain a ReplaceSource
+      // with replacements, a ConcatSource with several children, a
+      // SourceMapSource with an inner map, or a user-defined source: only
+      // those are ever inconsistent on the pinned tree. A plain leaf that
+      // disagrees with itself is a new defect and is reported as such.
+      (StrictMode::C10, Some(_), true) if w_can_be_inconsistent => {
         counters.inc("mismatch_over_inconsistent_wrapped_tree");
         "inherited_inconsistency"
       }
@@ -614,7 +626,7 @@ pub fn check_strict(
       // garbled too (duplicated / dropped pieces). Only a stream's text can be
       // affected that way; source(), buffer(), size(), to_writer(), hash are
       // never excused.
-      (StrictMode::C10, Some(_), false) if class == "stream" => {
+      (StrictMode::C10, Some(_), false) if class == "stream" && w_can_be_inconsistent => {
         counters.inc("mismatch_over_inconsistent_wrapped_tree");
         counters.inc("replayed_text_garbled_over_inconsistent_wrapped_tree");
         "inherited_inconsistency"
